@@ -25,6 +25,7 @@
 #include "fault.h"
 #include <eventpp/eventdispatcher.h>
 #include <eventpp/eventqueue.h>
+#include <eventpp/utilities/eventutil.h>
 #include <eventpp/mixins/mixinfilter.h>
 #include <eventpp/utilities/orderedqueuelist.h>
 #include <eventpp/utilities/scopedremover.h>
@@ -68,6 +69,9 @@
 #endif
 #ifndef W_ORDER
 #define W_ORDER 0
+#endif
+#ifndef W_UTIL
+#define W_UTIL 0      // 1 (needs W_CALLBACK=1): removeListener / hasAnyListener / ownsHandle go through the eventutil.h helpers by callback value
 #endif
 #ifndef W_CALLBACK
 #define W_CALLBACK 0
@@ -596,9 +600,17 @@ static bool step()
 	else if(k == "ss") { if((o.a + o.b) % 2) R[o.a]->swap(*R[o.b]); else R[o.b]->swap(*R[o.a]); std::swap(RT[o.a], RT[o.b]); evx("ss", o.a, o.b, 0, 0, 0); }
 	else if(k == "sd") { R[o.a].reset(); evx("sd", o.a, 0, 0, 0, 0); }
 	else if(k == "sn") { R[o.a].reset(new SR(SR_TARGET(o.b == 1 ? q : q2))); RT[o.a] = o.b; evx("sn", o.a, o.b, 0, 0, 0); }
+#if W_UTIL == 1
+	// the eventutil.h helpers in their dispatcher / queue form, searching by callback VALUE: every listener is Cb(<its own number>), so
+	// "the listener equal to Cb(h) of this event" is exactly handle h - the same records as the member functions, judged by the same rules
+	else if(k == "rl") { bool r = eventpp::removeListener(*q, makeKey(o.a), Cb(o.b)); evx("rl", o.a, o.b, 0, r ? 1 : 0, 0); }
+	else if(k == "hl") { bool r = eventpp::hasAnyListener(*q, makeKey(o.a)); evx("hl", o.a, 0, 0, r ? 1 : 0, 0); }
+	else if(k == "ol") { bool r = eventpp::hasListener(*q, makeKey(o.a), Cb(o.b)); evx("ol", o.a, o.b, 0, r ? 1 : 0, 0); }
+#else
 	else if(k == "rl") { bool r = q->removeListener(makeKey(o.a), handleOf(o.b)); evx("rl", o.a, o.b, 0, r ? 1 : 0, 0); }
 	else if(k == "hl") { bool r = q->hasAnyListener(makeKey(o.a)); evx("hl", o.a, 0, 0, r ? 1 : 0, 0); }
 	else if(k == "ol") { bool r = q->ownsHandle(makeKey(o.a), handleOf(o.b)); evx("ol", o.a, o.b, 0, r ? 1 : 0, 0); }
+#endif
 	else if(k == "fl") {
 		int n = 0; const int e = o.a;
 		q->forEach(makeKey(e), [&n, e](const Handle & h, const Q::Callback &) { ++n; evx("vi", e, numberOf(h), n, 0, 0); });
